@@ -111,6 +111,30 @@ def debug_assertions(R, Frel):
     R.extra.setdefault("debug_assert_scan", {})["checked_only_edges"] = n
 
 
+_RC = {}
+
+
+def reached_callers(F, P, key):
+    """functions reachable from the entry points that contain a live call resolved to `key`"""
+    ck = (id(F), id(P))
+    if ck not in _RC:
+        from pathlib2 import lookup_callee
+        m = {}
+        for g in P.reached.values():
+            if "mir" not in g:
+                continue
+            gv = view(F, g)
+            live = gv.live_blocks()
+            for bi, t in gv.calls:
+                if bi not in live or gv.blocks[bi].get("cleanup"):
+                    continue
+                c = lookup_callee(F, t)
+                if c is not None:
+                    m.setdefault(c["key"], {})[g["key"]] = g
+        _RC[ck] = m
+    return list(_RC[ck].get(key, {}).values())
+
+
 def check_cfg(F, R, cfg, backend):
     I = lambda s: "%s:%s" % (cfg, s)
     es = entries(F)
@@ -154,6 +178,14 @@ def check_cfg(F, R, cfg, backend):
             if re.search(fp, f["path"]) and re.search(kp, e["kind"]) and re.search(dp, e["detail"]):
                 res = why
                 break
+        if res is None and not f.get("exported") and f["kind"] != "Closure":
+            # the assertion a residual justifies was moved into a private helper: the residual is inherited when every function that calls the helper
+            # *and is reachable from the entry points* is one the residual names (the justification is about those call sites)
+            cs = reached_callers(F, P, f["key"])
+            for i, (fp, kp, dp, why) in enumerate(RESIDUALS):
+                if cs and all(re.search(fp, c["path"]) for c in cs) and re.search(kp, e["kind"]) and re.search(dp, e["detail"]):
+                    res = why + " [in the private helper %s, reached only through %s]" % (short(f), ", ".join(sorted(short(c) for c in cs)))
+                    break
         if res:
             n_res += 1
             R.ok("C15.residual", I(inst), "reviewed: " + res)
